@@ -3,6 +3,8 @@
 send(data) returns any n with 1 <= n <= len(data) (bytes accepted by the kernel), or raises OSError(EWOULDBLOCK) (nothing
 accepted, retry later) or another OSError (connection failed, nothing accepted). The outcome sequence is the symbolic `script`:
 entry s > 0 -> accept min(s, len(data)) bytes; s == 0 -> accept everything; s == -1 -> EWOULDBLOCK; s == -2 -> EPIPE.
+s == -3 -> one byte is accepted and the socket is then closed locally (disable()/disconnect() from another thread): select() on it
+raises ValueError (negative file descriptor) and send() raises OSError(EBADF) from then on.
 When the script is exhausted the socket accepts everything (a peer that eventually drains), which bounds every run.
 select() always reports writable (readiness never guarantees that send takes all bytes).
 """
@@ -16,12 +18,16 @@ class FakeSock:
         self.i = 0
         self.wire = b""
         self.calls = 0
+        self.closed = False
 
     def fileno(self):
         return 3
 
     def send(self, data):
         self.calls += 1
+        if self.closed:
+            self.hard_error = True
+            raise OSError(errno.EBADF, "bad file descriptor")
         if self.i >= len(self.script):
             n = len(data)
         else:
@@ -32,6 +38,10 @@ class FakeSock:
         if n == -2:
             self.hard_error = True
             raise OSError(errno.EPIPE, "broken pipe")
+        if n == -3:
+            self.closed = True
+            self.hard_error = True
+            n = 1
         if n <= 0 or n > len(data):
             n = len(data)
         self.wire = self.wire + data[:n]
@@ -39,4 +49,7 @@ class FakeSock:
 
 
 def always_writable(r, w, x, timeout=None):
+    for sock in list(r) + list(w):
+        if getattr(sock, "closed", False):
+            raise ValueError("file descriptor cannot be a negative integer (-1)")
     return (list(r), list(w), [])
